@@ -56,7 +56,7 @@ _l("C07", "4 C07", "MC_Ledger proves ConvTiming (executed at the first later rat
    "amounts 1..1e11, rates 1..9e15, PIP-10 off/on/switching, gaps in the averaging window are validated exactly (Big.tla): execution height, to_amount, balances. "
    "Kernel: MC_Convert proves floor exactness, value non-increase, never more than at spot rates, no round-trip gain, monotonicity and the refusal rule of "
    "Ledger.Convert over all small arguments; the real conversions.Convert is called on 31 104 argument tuples around the built-in PIP-10 activation and every "
-   "result is compared with Ledger.Convert by TLC (Trace_Convert).")
+   "result is compared with Ledger.Convert by TLC (Trace_Convert), and on 6 250 tuples of 64-bit arguments incl. the overflow branch (Trace_ConvertBig, Big.tla).")
 _l("C08", "4 C08", "Sync.tla (TLC, with fairness) proves <>(synced = Tip) and no deadlock given total block application; hostile content (malformed / oversized / "
    "partial entries on all three chains, repeated entry hashes in every state) is served to the real daemon, which must commit every block (wedge and crash "
    "detectors); surviving traces are validated by TLC (garbage is inert).", technique="TLA+ spec (Sync.tla liveness, LedgerBlock totality) + TLC + adversarial scenario replay with wedge/crash detection")
